@@ -596,6 +596,8 @@ class A64(Machine):
             v = self.op2(o[1:])
             _, b = self.reg(o[0])
             self.put(o[0], ~v if mn == "mvn" else v)
+        elif mn in ("hint", "nop", "bti", "paciasp", "autiasp"):
+            pass            # landing pads and pointer-authentication hints: no architectural effect on the values computed here
         elif mn == "cmp":
             a, b = self.get(o[0])
             self.z = 1 if (a - self.op2(o[1:])) & ((1 << b) - 1) == 0 else 0
@@ -745,6 +747,12 @@ class M68k(Machine):
         elif mn == "not.l":
             dst = self.ea(o[0])
             self.wr(dst, ~self.rd(dst))
+        elif mn in ("swap", "swap.w"):
+            dst = self.ea(o[0])
+            if dst[0] != "r" or dst[1] != "d":
+                raise EmuError("swap needs a data register")
+            v = self.rd(dst)
+            self.wr(dst, ((v << 16) | (v >> 16)) & 0xFFFFFFFF)
         elif mn in ("ror.l", "lsr.l", "lsl.l", "rol.l"):
             if self.coldfire and mn in ("ror.l", "rol.l"):
                 raise EmuError("%s does not exist on ColdFire cores (the file's __mcoldfire__ text must build rotations from shifts)" % mn)
@@ -901,6 +909,7 @@ class Avr(Machine):
         Machine.__init__(self, text)
         self.r = [0] * 32
         self.spv = 0
+        self.iospace = {}
         self.C = self.T = self.Z = 0
         self.sreg_i = 1
 
@@ -985,8 +994,16 @@ class Avr(Machine):
         s = s.strip()
         m = re.match(r"^_SFR_IO_ADDR\((\w+)\)$", s)
         if m:
-            return {"SPL": 0x3d, "SPH": 0x3e, "SREG": 0x3f}[m.group(1)]
-        return {"__SP_L__": 0x3d, "__SP_H__": 0x3e, "__SREG__": 0x3f}.get(s, None) if not re.match(r"^\d|^0x", s) else int(s, 0)
+            return {"SPL": 0x3d, "SPH": 0x3e, "SREG": 0x3f}.get(m.group(1), ("io", m.group(1)))
+        return {"__SP_L__": 0x3d, "__SP_H__": 0x3e, "__SREG__": 0x3f}.get(s, ("io", s)) if not re.match(r"^\d|^0x", s) else int(s, 0)
+
+    def other_io(self, p, write):
+        """The routine's business in I/O space is the stack pointer and the status register; any other I/O register belongs to
+        the application (GPIOR flags, timers, ports)."""
+        name = p[1] if isinstance(p, tuple) else "0x%02x" % p
+        msg = "%s I/O register %s, which is neither the stack pointer nor SREG (memory outside the state and the routine's own frame)" % ("writes" if write else "reads", name)
+        if msg not in self.violations:
+            self.violations.append(msg)
 
     def step(self, mn, o, here):
         R = self.r
@@ -1084,7 +1101,11 @@ class Avr(Machine):
             R[self.reg(o[0])] = self.mem.get(self.spv, 0xCD)
         elif mn == "in":
             p = self.io(o[1])
-            R[self.reg(o[0])] = {0x3d: self.spv & 0xFF, 0x3e: self.spv >> 8, 0x3f: (self.sreg_i << 7) | (self.T << 6) | (self.Z << 1) | self.C}[p]
+            if p not in (0x3d, 0x3e, 0x3f):
+                self.other_io(p, False)
+                R[self.reg(o[0])] = self.iospace.get(p, 0xA7)
+            else:
+                R[self.reg(o[0])] = {0x3d: self.spv & 0xFF, 0x3e: self.spv >> 8, 0x3f: (self.sreg_i << 7) | (self.T << 6) | (self.Z << 1) | self.C}[p]
         elif mn == "out":
             p, v = self.io(o[0]), R[self.reg(o[1])]
             # The stack pointer is written one byte at a time: in between it can be 256 bytes away from any frame of
@@ -1102,7 +1123,8 @@ class Avr(Machine):
             elif p == 0x3f:
                 self.sreg_i, self.T, self.Z, self.C = v >> 7, (v >> 6) & 1, (v >> 1) & 1, v & 1
             else:
-                raise EmuError("out to unknown port")
+                self.other_io(p, True)
+                self.iospace[p] = v
         elif mn == "cli":
             self.sreg_i = 0
         elif mn == "sei":
